@@ -227,11 +227,22 @@ def applySwitches (guard : Bool) : List Switch → Overrides → Config
     | .ok _ false => .usage
     | .ok ov' true => applySwitches guard ss ov'
 
-/-- `main`'s option loop followed by `if( no_warnings ) ERRORset_all_warnings( … )` -/
+/-- the other form of the option loop (regenerated `switchResetsAll`): every `-w` or `-i` first does `ERRORset_all_warnings( 0 )` — all
+    warning classes on again, whatever the earlier switches set — and then sets its own class -/
+def applySwitchesReset (guard : Bool) : List Switch → Overrides → Config
+  | [], ov => .ok ov
+  | s :: ss, ov =>
+    match setWarning guard (setAllWarnings ov false) s.name (s.opt = (if LibErrors.overrideLetter = 'w' then Sw.w else Sw.i)) with
+    | .crash => .crash
+    | .ok _ false => .usage
+    | .ok ov' true => applySwitchesReset guard ss ov'
+
+/-- `main`'s option processing: without a switch every warning is off (`ERRORset_all_warnings( defaultOverride )`); with switches
+    each one sets its own class on a column that starts with every warning on — or, in the reset form, restarts that column -/
 def configure (guard : Bool) (sws : List Switch) : Config :=
   match sws with
   | [] => .ok (setAllWarnings initOverrides LibErrors.defaultOverride)
-  | _ => applySwitches guard sws initOverrides
+  | _ => if LibErrors.switchResetsAll then applySwitchesReset guard sws initOverrides else applySwitches guard sws initOverrides
 
 /-- `ERRORis_enabled` -/
 def enabled (ov : Overrides) (code : Nat) : Bool := !(ov code)
